@@ -113,7 +113,7 @@ impl Beh {
 			return b.clone();
 		}
 		let n = self.len_for(name, true);
-		let b: Vec<u8> = (0..n).map(|_| self.rng.gen()).collect();
+		let b: Vec<u8> = (0..n).map(|_| self.rng.gen::<u8>()).collect();
 		self.seeds.insert(name.to_string(), b.clone());
 		self.len4.insert(name.to_string(), true);
 		b
